@@ -640,3 +640,30 @@ func MapWrite(m interface{}) {
 	trackMu.Unlock()
 	Yield(nil, "map-write-mid")
 }
+
+// ---------------------------------------------------------------------------
+// schedule points inside store transactions (see vinstr: the badgerhold codec is wrapped)
+
+// TxnPoints switches the codec schedule points on (they multiply the schedule space, so only the scenarios
+// about concurrent store operations enable them).
+var TxnPoints int32
+
+// BhEncoder wraps the store's value encoder.
+func BhEncoder(f func(interface{}) ([]byte, error)) func(interface{}) ([]byte, error) {
+	return func(v interface{}) ([]byte, error) {
+		if atomic.LoadInt32(&TxnPoints) != 0 && atomic.LoadInt32(&nManaged) != 0 {
+			Yield(nil, "store-txn:encode")
+		}
+		return f(v)
+	}
+}
+
+// BhDecoder wraps the store's value decoder.
+func BhDecoder(f func([]byte, interface{}) error) func([]byte, interface{}) error {
+	return func(b []byte, v interface{}) error {
+		if atomic.LoadInt32(&TxnPoints) != 0 && atomic.LoadInt32(&nManaged) != 0 {
+			Yield(nil, "store-txn:decode")
+		}
+		return f(b, v)
+	}
+}
